@@ -240,4 +240,241 @@ theorem rejecting_layer_ignores_inner (fuel pos : Nat) (inner inner' : Layer) (r
 
 example : nestFrom 5 0 [] = base := rfl
 
+/-! ## each policy handles only what the policy inside it returned
+
+`Eqv`: two layer results agree on value, error, the overall verdict (`SuccessAll`) and the run state; the implementation's
+`Done` / `Success` flags are ignored. `applyPolicy_congr`: every policy layer maps layers that agree in this sense to layers
+that agree — nothing a policy does depends on the `Done` / `Success` flags of what is inside it (they are plumbing, not
+behaviour): the nesting is a function of the (value, error, verdict) triples alone. `stack_congr` lifts this to every policy list. -/
+
+def Eqv : Option (PR × Run) → Option (PR × Run) → Prop
+  | none, none => True
+  | some (p, r), some (q, s) => p.val = q.val ∧ p.err = q.err ∧ p.successAll = q.successAll ∧ r = s
+  | _, _ => False
+
+theorem Eqv.refl (a : Option (PR × Run)) : Eqv a a := by
+  cases a with
+  | none => trivial
+  | some x => exact ⟨rfl, rfl, rfl, rfl⟩
+
+def LEqv (l l' : Layer) : Prop := ∀ r, Eqv (l r) (l' r)
+
+/-- what a layer may look at: the outcome and the verdict -/
+theorem eqv_cases {a b : Option (PR × Run)} (h : Eqv a b) :
+    (a = none ∧ b = none) ∨ ∃ p q r, a = some (p, r) ∧ b = some (q, r) ∧ p.val = q.val ∧ p.err = q.err ∧ p.successAll = q.successAll := by
+  cases a with
+  | none => cases b with
+    | none => exact Or.inl ⟨rfl, rfl⟩
+    | some y => cases h
+  | some x => cases b with
+    | none => obtain ⟨p, r⟩ := x; cases h
+    | some y =>
+      obtain ⟨p, r⟩ := x; obtain ⟨q, s⟩ := y
+      obtain ⟨h1, h2, h3, h4⟩ := h
+      subst h4
+      exact Or.inr ⟨p, q, r, rfl, rfl, h1, h2, h3⟩
+
+theorem outcome_eq {p q : PR} (h1 : p.val = q.val) (h2 : p.err = q.err) : p.outcome = q.outcome := by
+  simp [PR.outcome, h1, h2]
+
+theorem breaker_congr (fuel pos id : Nat) (hd : List Cond) (inner inner' : Layer) (h : LEqv inner inner') :
+    LEqv (applyPolicy fuel pos (.breaker id hd) inner) (applyPolicy fuel pos (.breaker id hd) inner') := by
+  intro r
+  simp only [applyPolicy]
+  cases hb : r.w.breakers[id]? with
+  | none => trivial
+  | some cb =>
+    simp only
+    split
+    · exact Eqv.refl _
+    · rename_i hok
+      rcases eqv_cases (h (drainBreaker (updBreaker r id fun _ _ => (Breaker.tryAcquire cb.1 cb.2 r.w.now).1) id pos)) with
+        ⟨ha, hb'⟩ | ⟨p, q, r1, ha, hb', h1, h2, h3⟩
+      · simp [ha, hb', Eqv]
+      · simp only [ha, hb', outcome_eq h1 h2]
+        split <;> simp [Eqv, PR.withFailure, PR.withDone, h1, h2, h3]
+
+theorem bulkhead_congr (fuel pos id : Nat) (inner inner' : Layer) (h : LEqv inner inner') :
+    LEqv (applyPolicy fuel pos (.bulkhead id) inner) (applyPolicy fuel pos (.bulkhead id) inner') := by
+  intro r
+  simp only [applyPolicy]
+  cases hb : r.w.bulk[id]? with
+  | none => trivial
+  | some ch =>
+    simp only
+    split
+    · rcases eqv_cases (h { r with w := { r.w with bulk := r.w.bulk.set id (ch.1, ch.2 + 1) } }) with
+        ⟨ha, hb'⟩ | ⟨p, q, r1, ha, hb', h1, h2, h3⟩
+      · simp [ha, hb', Eqv]
+      · simp [ha, hb', Eqv, h1, h2, h3]
+    · exact Eqv.refl _
+
+theorem limiter_congr (fuel pos id : Nat) (inner inner' : Layer) (h : LEqv inner inner') :
+    LEqv (applyPolicy fuel pos (.limiter id) inner) (applyPolicy fuel pos (.limiter id) inner') := by
+  intro r
+  simp only [applyPolicy]
+  cases hb : r.w.limiters[id]? with
+  | none => trivial
+  | some cs =>
+    simp only
+    split
+    · exact h _
+    · exact Eqv.refl _
+
+theorem fallback_congr (fuel pos : Nat) (k : FbKind) (hd : List Cond) (inner inner' : Layer) (h : LEqv inner inner') :
+    LEqv (applyPolicy fuel pos (.fallback k hd) inner) (applyPolicy fuel pos (.fallback k hd) inner') := by
+  intro r
+  simp only [applyPolicy]
+  rcases eqv_cases (h r) with ⟨ha, hb'⟩ | ⟨p, q, r1, ha, hb', h1, h2, h3⟩
+  · simp [ha, hb', Eqv]
+  · simp only [ha, hb', outcome_eq h1 h2]
+    split
+    · split
+      · exact Eqv.refl _
+      · exact Eqv.refl _
+    · simp [Eqv, PR.withDone, h1, h2, h3]
+
+theorem timeout_congr (fuel pos : Nat) (inner inner' : Layer) (h : LEqv inner inner') :
+    LEqv (applyPolicy fuel pos .timeout inner) (applyPolicy fuel pos .timeout inner') := by
+  intro r
+  simp only [applyPolicy]
+  rcases eqv_cases (h { r with inTimeout := true, cancelled := false, timeoutPos := pos }) with
+    ⟨ha, hb'⟩ | ⟨p, q, r1, ha, hb', h1, h2, h3⟩
+  · simp [ha, hb', Eqv]
+  · simp only [ha, hb', h2]
+    split
+    · exact Eqv.refl _
+    · cases he : q.err with
+      | none => simp [Eqv, PR.withDone, h1, h2, h3, he]
+      | some e => by_cases ht : e.is Err.TIMEOUT = true <;> simp [Eqv, PR.withFailure, PR.withDone, h1, h2, h3, he, ht]
+
+theorem cache_congr (fuel pos id : Nat) (key : String) (cif : Option Nat) (inner inner' : Layer) (h : LEqv inner inner') :
+    LEqv (applyPolicy fuel pos (.cache id key cif) inner) (applyPolicy fuel pos (.cache id key cif) inner') := by
+  intro r
+  simp only [applyPolicy]
+  split
+  · exact Eqv.refl _
+  · rcases eqv_cases (h (r.emit "ca.onMiss" pos)) with ⟨ha, hb'⟩ | ⟨p, q, r1, ha, hb', h1, h2, h3⟩
+    · simp [ha, hb', Eqv]
+    · have hsc : shouldCache cif p = shouldCache cif q := by
+        unfold shouldCache; cases cif <;> simp [h2, outcome_eq h1 h2]
+      simp only [ha, hb', hsc, h1]
+      split <;> simp [Eqv, h1, h2, h3]
+
+theorem retryOnFailure_congr (pos : Nat) (m : Int) (rl : Bool) (a : List Cond) (p q : PR) (r : Run)
+    (h1 : p.val = q.val) (h2 : p.err = q.err) :
+    (retryOnFailure pos m rl a p r).2 = (retryOnFailure pos m rl a q r).2 ∧
+    (retryOnFailure pos m rl a p r).1.val = (retryOnFailure pos m rl a q r).1.val ∧
+    (retryOnFailure pos m rl a p r).1.err = (retryOnFailure pos m rl a q r).1.err ∧
+    (retryOnFailure pos m rl a p r).1.done = (retryOnFailure pos m rl a q r).1.done ∧
+    (retryOnFailure pos m rl a p r).1.successAll = (retryOnFailure pos m rl a q r).1.successAll := by
+  have ho : p.outcome = q.outcome := outcome_eq h1 h2
+  unfold retryOnFailure
+  simp only [ho, h1, h2]
+  split <;> simp [PR.withDone, failureResult, h1, h2]
+
+theorem retry_congr (pos : Nat) (m : Int) (rl : Bool) (hd a : List Cond) (inner inner' : Layer) (h : LEqv inner inner') :
+    ∀ fuel, LEqv (retryLoop pos m rl hd a inner fuel) (retryLoop pos m rl hd a inner' fuel) := by
+  intro fuel
+  induction fuel with
+  | zero => intro r; simp [retryLoop, Eqv]
+  | succ n ih =>
+    intro r
+    simp only [retryLoop]
+    rcases eqv_cases (h r) with ⟨ha, hb'⟩ | ⟨p, q, r1, ha, hb', h1, h2, h3⟩
+    · simp [ha, hb', Eqv]
+    · simp only [ha, hb']
+      by_cases hc : r1.isCanc = true
+      · simp only [hc, if_true]; exact Eqv.refl _
+      · simp only [hc]
+        by_cases he : r1.exceeded.contains pos = true
+        · simp only [he, if_true]; exact ⟨h1, h2, h3, rfl⟩
+        · simp only [he, outcome_eq h1 h2]
+          by_cases hf : isFailure hd q.outcome = true
+          · simp only [hf, if_true]
+            have hwf1 : p.withFailure.val = q.withFailure.val := h1
+            have hwf2 : p.withFailure.err = q.withFailure.err := h2
+            obtain ⟨e2, e1v, e1e, e1d, e1s⟩ := retryOnFailure_congr pos m rl a p.withFailure q.withFailure r1 hwf1 hwf2
+            rw [e2, e1d]
+            by_cases hdn : (retryOnFailure pos m rl a q.withFailure r1).1.done = true
+            · simp only [hdn, if_true]; exact ⟨e1v, e1e, e1s, rfl⟩
+            · simp only [hdn]
+              have ho : (retryOnFailure pos m rl a p.withFailure r1).1.outcome = (retryOnFailure pos m rl a q.withFailure r1).1.outcome :=
+                outcome_eq e1v e1e
+              rw [ho]
+              generalize (({ (retryOnFailure pos m rl a q.withFailure r1).2 with
+                  last := (retryOnFailure pos m rl a q.withFailure r1).1.outcome }).emit "rp.onRetryScheduled" pos).trigger "rp.onRetryScheduled" = X
+              by_cases hx : X.isCanc = true
+              · simp only [hx, if_true]; exact Eqv.refl _
+              · simp only [hx]; exact ih _
+          · simp only [hf]; exact ⟨h1, h2, by simp [PR.withDone, h3], rfl⟩
+
+theorem hedge_congr (pos n : Nat) (co : List Cond) (inner inner' : Layer) (h : LEqv inner inner') :
+    ∀ fuel k d b, LEqv (hedgeLoop pos n co inner fuel k d b) (hedgeLoop pos n co inner' fuel k d b) := by
+  intro fuel
+  induction fuel with
+  | zero => intro k d b r; simp [hedgeLoop, Eqv]
+  | succ f ih =>
+    intro k d b r
+    simp only [hedgeLoop]
+    generalize (if (k == 0) = true then { r with hedgeAttempt := false } else ({ r with attempts := r.attempts + 1, hedges := r.hedges + 1, hedgeAttempt := true }).emit "hp.onHedge" pos) = r0
+    rcases eqv_cases (h r0) with ⟨ha, hb'⟩ | ⟨p, q, r1, ha, hb', h1, h2, h3⟩
+    · simp only [ha, hb']
+      repeat' split
+      all_goals first
+        | exact Eqv.refl _
+        | exact ih _ _ _ _
+        | trivial
+    · simp only [ha, hb', outcome_eq h1 h2]
+      repeat' split
+      all_goals first
+        | exact Eqv.refl _
+        | exact ih _ _ _ _
+        | exact ⟨h1, h2, h3, rfl⟩
+        | trivial
+
+/-- **each policy handles only what the policy inside it returned**: value, error and verdict — never the plumbing flags -/
+theorem applyPolicy_congr (fuel pos : Nat) (p : Policy) (inner inner' : Layer) (h : LEqv inner inner') :
+    LEqv (applyPolicy fuel pos p inner) (applyPolicy fuel pos p inner') := by
+  cases p with
+  | retry m rl hd a => exact retry_congr pos m rl hd a inner inner' h fuel
+  | breaker id hd => exact breaker_congr fuel pos id hd inner inner' h
+  | bulkhead id => exact bulkhead_congr fuel pos id inner inner' h
+  | limiter id => exact limiter_congr fuel pos id inner inner' h
+  | fallback k hd => exact fallback_congr fuel pos k hd inner inner' h
+  | cache id key cif => exact cache_congr fuel pos id key cif inner inner' h
+  | timeout => exact timeout_congr fuel pos inner inner' h
+  | hedge n co => exact hedge_congr pos n co inner inner' h _ _ _ _
+
+/-- the composition loop over an arbitrary innermost layer -/
+def stackOver (fn : Layer) (fuel : Nat) : Nat → List Policy → Layer
+  | _, [] => fn
+  | pos, p :: ps => applyPolicy fuel pos p (stackOver fn fuel (pos + 1) ps)
+
+theorem stackOver_base (fuel pos : Nat) (ps : List Policy) : stackOver base fuel pos ps = executeStack fuel pos ps := by
+  induction ps generalizing pos with
+  | nil => rfl
+  | cons p ps ih => simp [stackOver, executeStack, ih]
+
+/-- … for every policy list (with repetition) and position: replacing what is innermost by something that agrees with it on
+(value, error, verdict, run state) changes nothing the whole stack does or returns -/
+theorem stack_congr (fuel : Nat) (ps : List Policy) (pos : Nat) (fn fn' : Layer) (h : LEqv fn fn') :
+    LEqv (stackOver fn fuel pos ps) (stackOver fn' fuel pos ps) := by
+  induction ps generalizing pos with
+  | nil => exact h
+  | cons p ps ih => exact applyPolicy_congr fuel pos p _ _ (ih (pos + 1))
+
+/-- in particular the plumbing flags the function's wrapper sets are irrelevant: any `Done` / `Success` values give the same
+execution (value, error, verdict, invocations, statistics, events, world) -/
+theorem flags_are_plumbing (fuel : Nat) (ps : List Policy) (d s : Bool) (r : Run) :
+    Eqv (executeStack fuel 0 ps r)
+        (stackOver (fun r => (base r).map (fun x => ({ x.1 with done := d, success := s }, x.2))) fuel 0 ps r) := by
+  rw [← stackOver_base]
+  apply stack_congr
+  intro r
+  show Eqv (base r) ((base r).map _)
+  cases base r with
+  | none => trivial
+  | some x => exact ⟨rfl, rfl, rfl, rfl⟩
+
 end Failsafe.Props.C01
